@@ -673,6 +673,111 @@ func checkC15(c *Ctx, p *Prog, r *Result) {
 		r.table(p, "C15.budget-subtracted", siteKey(p, call), p.instrPos(call), good && appended, fmt.Sprintf("next budget = budget - Size(chunk read)=%v; that chunk is appended=%v", good, appended))
 	}
 
+	// (a2) the amount reserved for the message wrapper
+	r.rule("C15.header-reservation", "the constant the device takes off the negotiated size before batching covers the CBOR wrapper of the message struct it sends: 1 byte array head + the encoded size of every fixed-size field (bool: 1) + a 3-byte head for the service-info array (up to 65535 entries, the budget being a uint16)")
+	r.floor("C15.header-reservation", 1)
+	for _, call := range p.callsTo("fdo/serviceinfo.ChunkReader.ReadChunk") {
+		fn := call.Parent()
+		if _, ok := allArgs(call)[1].(*ssa.Phi); !ok || funcPkgPath(fn) != modulePath {
+			continue
+		}
+		// the message struct: a local of struct type with a []*KV field that is appended to
+		need := int64(-1)
+		for _, b := range fn.Blocks {
+			for _, in := range b.Instrs {
+				al, ok := in.(*ssa.Alloc)
+				if !ok {
+					continue
+				}
+				st, ok := deref(al.Type()).Underlying().(*types.Struct)
+				if !ok {
+					continue
+				}
+				n, hasKV, okFields := int64(1), false, true
+				for i := 0; i < st.NumFields(); i++ {
+					ft := st.Field(i).Type()
+					switch u := ft.Underlying().(type) {
+					case *types.Basic:
+						if u.Kind() == types.Bool {
+							n++
+						} else {
+							okFields = false
+						}
+					case *types.Slice:
+						if strings.HasSuffix(shortTypeString(u.Elem()), "serviceinfo.KV") {
+							hasKV = true
+							n += 3
+						} else {
+							okFields = false
+						}
+					default:
+						okFields = false
+					}
+				}
+				if hasKV && okFields {
+					need = n
+				}
+			}
+		}
+		// the budget parameter's value at the in-package call sites: param - c
+		var budget *ssa.Parameter
+		if phi, ok := allArgs(call)[1].(*ssa.Phi); ok {
+			for _, e := range phi.Edges {
+				if pr, ok := e.(*ssa.Parameter); ok {
+					budget = pr
+				}
+			}
+		}
+		if need < 0 || budget == nil {
+			r.table(p, "C15.header-reservation", "reservation before "+p.FuncName(fn), p.Pos(fn.Pos()), false, "message struct or budget parameter not recognised: undecided")
+			continue
+		}
+		pi := -1
+		for i, q := range fn.Params {
+			if q == budget {
+				pi = i
+			}
+		}
+		found := false
+		for _, ed := range p.CallGraph().in[fn] {
+			cs, ok := ed.Site.(ssa.CallInstruction)
+			if !ok || ed.Kind != "static" || ed.Caller == fn || pi >= len(cs.Common().Args) {
+				continue
+			}
+			arg := cs.Common().Args[pi]
+			// follow a loop-carried / reassigned variable back to `x - c`
+			var sub *ssa.BinOp
+			var walk func(v ssa.Value, d int)
+			walk = func(v ssa.Value, d int) {
+				if d > 4 || sub != nil {
+					return
+				}
+				switch x := v.(type) {
+				case *ssa.BinOp:
+					if x.Op == token.SUB {
+						if _, isC := constInt(intRootNoVar(x.Y)); isC {
+							sub = x
+						}
+					}
+				case *ssa.Phi:
+					for _, e := range x.Edges {
+						walk(e, d+1)
+					}
+				}
+			}
+			walk(arg, 0)
+			if sub == nil {
+				continue
+			}
+			found = true
+			c, _ := constInt(intRootNoVar(sub.Y))
+			r.table(p, "C15.header-reservation", "reservation in "+p.FuncName(ed.Caller)+" for "+siteKey(p, cs), p.instrPos(sub), c >= need, fmt.Sprintf("reserves %d byte(s); the wrapper of the message struct needs %d", c, need))
+		}
+		if !found {
+			r.table(p, "C15.header-reservation", "reservation before "+p.FuncName(fn), p.Pos(fn.Pos()), false, "no caller subtracts a constant from the negotiated size: undecided")
+		}
+	}
+
 	// (b) owner MTU check
 	r.rule("C15.owner-fits-mtu", "the owner returns service info produced by a module only after ArraySizeCBOR(info) > mtu was false, with mtu from Session.MTU")
 	r.floor("C15.owner-fits-mtu", 1)
